@@ -263,6 +263,7 @@ def run(m, tier):
     from rules import order_rules
     results.append(order_rules.eof_probe_rule(m, "C08.R13"))
     results.append(engine_tables.whole_string_pattern_rule(m, "C08.R14"))
+    results.append(r15_unit_end_in_body(m, blocks))
     expl = ("Decides the structural clauses of C08: the table of block constructs extracted from every "
             "BlockBase.match call site agrees with the Fortran 2003/2008 rules (opening/END pair, name and label "
             "comparison flags), every END statement class names its keyword and refuses a bare END where the standard "
@@ -270,3 +271,44 @@ def run(m, tier):
             "class was seen and raises on every name mismatch. Brackets/quotes are stripped with x[1:-1] only after both ends of x were tested on that path (40 sites). Does NOT decide absorption of stray statements by "
             "enclosing constructs for every nest, nor unbalanced parentheses.")
     return results, expl
+
+
+UNIT_ENDS = ("End_Function_Stmt", "End_Subroutine_Stmt", "End_Program_Stmt", "End_Module_Stmt", "End_Submodule_Stmt", "End_Block_Data_Stmt")
+
+
+def r15_unit_end_in_body(m, blocks):
+    """C201: an END FUNCTION / END SUBROUTINE / END PROGRAM statement cannot be a statement of a construct's body.  The grammar lists
+    them under action-stmt; the execution part itself uses the ..._C201 classes that leave them out, nested constructs must do so too."""
+    r = RuleResult("C08.R15", "no END statement of a program unit is reachable as a body statement of a construct (grammar closure of the body "
+                              "classes of every block instance, both standards): otherwise a surplus `END SUBROUTINE` inside an IF or DO body "
+                              "is accepted as an ordinary statement")
+    r.floor = 20
+    seen = {}
+    for inst in blocks:
+        if not inst.args:
+            continue
+        subs = inst.args.get("subclasses")
+        ec = inst.args.get("endcls")
+        if subs is None or subs.kind not in ("list", "tuple"):
+            continue
+        if ec is not None and ec.kind == "class" and ec.v.split(":")[1] in UNIT_ENDS:
+            continue          # the program-unit blocks themselves: their parts are checked where they are defined
+        std = "f2008" if "Fortran2008" in inst.concrete else "f2003"
+        for v in subs.v:
+            if v.kind != "class":
+                continue
+            r.instances += 1
+            for std_ in ((std,) if std == "f2008" else ("f2003", "f2008")):
+                k = m.std_class(std_, v.v.split(":")[1]) or v.v
+                for x in m.closure(std_, k):
+                    nm = x.split(":")[1]
+                    if nm in UNIT_ENDS:
+                        seen.setdefault((v.v.split(":")[1], nm), inst)
+    for (body, end), inst in sorted(seen.items()):
+        r.ob(False)
+        r.fail("%s|unit-end-reachable|%s" % (body, end), "%s (a body class of %s and other constructs) can be matched by %s: a surplus `%s` "
+               "line inside the construct is accepted as one of its statements (constraint C201 is only enforced for the execution part "
+               "itself)" % (body, inst.tag, end, end.replace("_Stmt", "").replace("_", " ").upper()), m.loc(inst.func, inst.call))
+    if not seen:
+        r.ob(True, "no program-unit END class reachable from any construct body")
+    return r
